@@ -120,6 +120,9 @@ def general_event(c: dict, holder: str) -> dict:
         U = [np.linalg.qr(rng.randn(s, min(s, R)))[0] for s in shape]
         w = np.array([10.0, 5.0, 2.0])[: min(min(shape), R)]
         U = [u[:, : len(w)] for u in U]
+        if len(w) == 1:
+            # a single component (some mode is a singleton): every factor column stored with a negative dominant entry
+            U = [(-u if u[np.argmax(np.abs(u[:, 0])), 0] > 0 else u) for u in U]
         if c.get("nonorth"):
             # oblique components: the off-diagonal entries of the products of the factor Gram matrices matter
             U = [u + 0.35 * rng.randn(*u.shape) for u in U]
@@ -216,7 +219,7 @@ def main(tier: str) -> int:
         for h in HOLDERS + (["dense_int16", "sparse_int16"] if s["rot"] != "r345" else []):
             cases.append(dict(s, cls="exact", holder=h))
     sd = core.seed()
-    for shape in ([4, 3, 5], [5, 4], [3, 4, 3, 2]):
+    for shape in ([4, 3, 5], [5, 4], [3, 4, 3, 2], [4, 1, 3], [3, 2, 1, 3]):
         for n in range(len(shape)):
             for r in range(1, shape[n] + 1):
                 if r > 3:
